@@ -779,10 +779,38 @@ class Class(Node):
         # Exclude the root node's name
         return ComponentRef.from_tuple(tuple(reversed(names[:-1])))
 
+    def _is_within_placeholder(self) -> bool:
+        """True for the bare package file_to_tree() creates for a `within` clause
+        (or any package that declares nothing but nested classes)."""
+        return (
+            self.type == "package"
+            and not self.symbols
+            and not self.imports
+            and not self.extends
+            and not self.functions
+            and not self.equations
+            and not self.initial_equations
+            and not self.statements
+            and not self.initial_statements
+            and not self.comment
+            and not self.annotation
+            and not self.encapsulated
+            and not self.partial
+        )
+
     def _extend(self, other: "Class") -> None:
         for class_name in other.classes.keys():
             if class_name in self.classes.keys():
-                self.classes[class_name]._extend(other.classes[class_name])
+                mine = self.classes[class_name]
+                theirs = other.classes[class_name]
+                if mine._is_within_placeholder() and not theirs._is_within_placeholder():
+                    # The real definition arrives after a `within` placeholder:
+                    # keep the definition (its constants, imports, extends, ...)
+                    # and move the classes collected so far into it.
+                    theirs._extend(mine)
+                    self.classes[class_name] = theirs
+                else:
+                    mine._extend(theirs)
             else:
                 self.classes[class_name] = other.classes[class_name]
 
